@@ -98,6 +98,9 @@ type lox struct {
 
 	_qla    int
 	_qlasym any
+
+	// _stuck is true from a successful error recovery until a token is shifted.
+	_stuck bool
 }
 
 func (p *{{parser}}) parse(lex _Lexer) bool {
@@ -121,6 +124,9 @@ func (p *{{parser}}) parse(lex _Lexer) bool {
 		if action == accept {
 			break
 		} else if action >= 0 { // shift
+			if p._la != ERROR {
+				p._stuck = false
+			}
 			{{- if emit_bounds }}
 			latok, ok := p._lasym.(Token)
 			if !ok {
@@ -217,6 +223,18 @@ func (p *{{parser}}) _recover() bool {
 		errSym = p._makeError()
 	}
 
+	if p._stuck {
+		// The last recovery resumed at this very token and nothing has been
+		// shifted since: resuming here once more would never end. Give the
+		// token up.
+		if p._la == EOF {
+			return false
+		}
+		if p._la != ERROR {
+			p._readToken()
+		}
+	}
+
 	for p._la == ERROR {
 		p._readToken()
 	}
@@ -279,6 +297,7 @@ func (p *{{parser}}) _recover() bool {
 				p._qlasym = p._lasym
 				p._la = ERROR
 				p._lasym = deliver
+				p._stuck = true
 				return true
 			}
 
